@@ -45,6 +45,7 @@ type verifCmd struct {
 	Results    int      `json:"results,omitempty"` // pump: number of results fed to processAttack
 	ErrEvery   int      `json:"err_every,omitempty"`
 	FailWrite  int      `json:"fail_write,omitempty"` // pump: the output fails from this Write call on (0 = never)
+	URLs       int      `json:"urls,omitempty"`       // pump: number of distinct URL label values (default 4)
 }
 
 type verifDial struct {
@@ -190,6 +191,10 @@ func verifRun(c verifCmd) (a verifAns) {
 			a.Err = err.Error()
 			return
 		}
+		urls := c.URLs
+		if urls < 1 {
+			urls = 4
+		}
 		var taken atomic.Int64
 		quit := make(chan struct{})
 		feederDone := make(chan struct{})
@@ -198,7 +203,7 @@ func verifRun(c verifCmd) (a verifAns) {
 			base := time.Unix(1700000000, 0)
 			for i := 0; i < c.Results; i++ {
 				r := &vegeta.Result{Attack: "pump", Seq: uint64(i), Code: 200, Timestamp: base.Add(time.Duration(i) * time.Microsecond),
-					Latency: time.Duration(1+i%7) * time.Millisecond, BytesIn: uint64(10 + i%5), BytesOut: uint64(i % 3), Method: "GET", URL: fmt.Sprintf("http://pump/%d", i%4)}
+					Latency: time.Duration(1+i%7) * time.Millisecond, BytesIn: uint64(10 + i%5), BytesOut: uint64(i % 3), Method: "GET", URL: fmt.Sprintf("http://pump/%d", i%urls)}
 				if c.ErrEvery > 0 && i%c.ErrEvery == 0 {
 					r.Code, r.Error = 500, "500 Internal Server Error"
 				}
